@@ -225,6 +225,7 @@ theorem step_ginv {s : S} (i : Inv s) (g : GInv s) (e : Event) : GInv (step s e)
       | slow => exact GInv.of_not_closing hg.1.1
       | stubborn r => exact GInv.of_not_closing hg.1.1
       | aborter => exact GInv.of_lost (doAbort_lost _)
+      | thenClose fa => exact GInv.of_not_closing hg.1.1
       | closer fa => exact startCloser_ginv hg.1.1 _ _ _ _
   | replyClose j fa =>
     unfold step; simp only []
@@ -234,11 +235,22 @@ theorem step_ginv {s : S} (i : Inv s) (g : GInv s) (e : Event) : GInv (step s e)
       simp only [Bool.or_eq_true, not_or, Bool.not_eq_true] at hg
       exact startCloser_ginv hg.1.1 _ _ _ _
   | handlerFinish j =>
-    intro hc hl
-    rcases g hc hl with hw | ⟨h, hh, hin⟩
-    · left; exact hw
-    · right
-      exact ⟨h, List.mem_map.mpr ⟨h, hh, finishHandler_inClose hin⟩, hin⟩
+    unfold step; simp only []
+    split
+    · intro hc hl
+      rcases g hc hl with hw | ⟨h, hh, hin⟩
+      · left; exact hw
+      · right
+        exact ⟨h, List.mem_map.mpr ⟨h, hh, finishHandler_inClose hin⟩, hin⟩
+    · rename_i fa hfs
+      obtain ⟨h0, hh0, hr0⟩ := List.exists_of_findSome?_eq_some hfs
+      split
+      · exact GInv.of_lost (doAbort_lost _)
+      · rename_i hfa
+        apply transportClose_ginv
+        right
+        exact ⟨toCloser s.fixed s.now j h0, List.mem_map.mpr ⟨h0, hh0, rfl⟩,
+               toCloser_resuming hr0 (by simpa using hfa)⟩
   | handlerCancel j => exact crash_ginv i g j
   | outgoing k =>
     unfold step; simp only []
